@@ -777,6 +777,25 @@ pub fn universe() -> Vec<TyU> {
     }
     u.push(TyU { ty: t_se(), pats: p, len: (2, 3), ctx_len: (0, 0), groups: vec![] });
 
+    // 17 option<void>: a generic payload instantiated to void (no stack slot, but still a column of the pattern matrix)
+    let p = vec![w.clone(), bind("v"), none(), some(w.clone()), some(bind("v0")), some(Pat::Nil), or(none(), some(w.clone()))];
+    u.push(TyU { ty: t_opt(Ty::Void), pats: p, len: (3, 4), ctx_len: (0, 0), groups: vec![] });
+
+    // 18 result<void, bool>
+    let p = vec![
+        w.clone(),
+        bind("v"),
+        ok(w.clone()),
+        ok(bind("v0")),
+        ok(Pat::Nil),
+        err(w.clone()),
+        err(t.clone()),
+        err(f.clone()),
+        err(bind("v0")),
+        or(ok(w.clone()), err(t.clone())),
+    ];
+    u.push(TyU { ty: t_res(Ty::Void, Ty::Bool), pats: p, len: (2, 3), ctx_len: (0, 0), groups: vec![] });
+
     u
 }
 
